@@ -97,6 +97,9 @@ type Sim struct {
 	gs      []*G
 	notify  chan struct{}
 	nextGID int
+	scanFrom int
+	active   []*G
+	nLockWait int
 
 	rng       *prng
 	decisions []int32
@@ -192,6 +195,9 @@ func Yield(site string) {
 func (g *G) park(s *Sim, site string, st gstate) {
 	s.lk()
 	g.state = st
+	if st == gLockWait {
+		s.nLockWait++
+	}
 	g.site = site
 	s.siteHits.add(site, 1)
 	s.ulk()
@@ -805,9 +811,12 @@ func wakeWaiters(mu any) {
 		return
 	}
 	s.lk()
-	for _, g := range s.gs {
-		if g.state == gLockWait && g.waitOn == mu {
-			g.state = gParked
+	if s.nLockWait > 0 {
+		for _, g := range s.gs {
+			if g.state == gLockWait && g.waitOn == mu {
+				g.state = gParked
+				s.nLockWait--
+			}
 		}
 	}
 	s.ulk()
@@ -927,7 +936,7 @@ func Run(t *testing.T, cfg Config, main func()) (res Result) {
 func runInBubble(cfg Config, main func()) Result {
 	s := &Sim{
 		cfg:        cfg,
-		gs:         make([]*G, 0, 4096),
+		gs:         make([]*G, 0, 1<<17),
 		decisions:  make([]int32, 0, int(cfg.MaxSteps)*3+4096),
 		violations: make([]Violation, 0, 64),
 		notify:     make(chan struct{}, 1),
@@ -975,17 +984,34 @@ func runInBubble(cfg Config, main func()) Result {
 //go:norace
 func (s *Sim) snapshot() (parked []*G, live int, lockWait int) {
 	s.lk()
-	for _, g := range s.gs {
+	// the scheduler keeps its own list of goroutines that have not finished
+	// (only this goroutine touches it), so that a run with many short-lived
+	// goroutines does not rescan all of them at every step
+	for s.scanFrom < len(s.gs) {
+		s.active = append(s.active, s.gs[s.scanFrom])
+		s.scanFrom++
+	}
+	n := 0
+	for _, g := range s.active {
+		if g.state == gDone {
+			continue
+		}
+		s.active[n] = g
+		n++
 		switch g.state {
 		case gParked:
 			parked = append(parked, g)
 		case gLockWait:
 			lockWait++
 		}
-		if g.state != gDone && !g.daemon {
+		if !g.daemon {
 			live++
 		}
 	}
+	for i := n; i < len(s.active); i++ {
+		s.active[i] = nil
+	}
+	s.active = s.active[:n]
 	s.ulk()
 	// fair order: least recently run first, then id
 	sort.SliceStable(parked, func(a, b int) bool {
